@@ -136,8 +136,11 @@ func (b *Buffer) Write(packet []byte) (int, error) { //nolint:cyclop
 		return 0, io.ErrClosedPipe
 	}
 
+	// without a size limit the occupancy is capped at maxSize (one byte is kept free),
+	// also when the ring has grown beyond it under an earlier, larger limit.
 	if (b.limitCount > 0 && b.count >= b.limitCount) ||
-		(b.limitSize > 0 && b.size()+2+len(packet) > b.limitSize) {
+		(b.limitSize > 0 && b.size()+2+len(packet) > b.limitSize) ||
+		(b.limitSize <= 0 && b.size()+2+len(packet) >= maxSize) {
 		b.mutex.Unlock()
 
 		return 0, ErrFull
